@@ -63,6 +63,9 @@ def run(ctx):
                 r1.violation(what, "the %s is not dominated by `preselected ≠ committed index` ∧ get_phonetic_suggestion()" % what, site_of(b, bb))
             elif extra and what == "insert":
                 r1.violation(what, "the learned choice is stored only under an additional condition %s" % (extra,), site_of(b, bb))
+            elif extra and what == "file-write":
+                r1.violation(what, "the store is written to disk only under an additional condition %s — a choice learned in memory on the other paths is lost "
+                             "at the next restart" % (repr(extra)[:300],), site_of(b, bb))
             else:
                 r1.ok(what, "%s under prev ≠ index ∧ suggestions on" % what)
     if not writes:
